@@ -430,6 +430,90 @@ func (r *rpf) stmt(s ast.Stmt) *rpfReturn {
 			return run(deflt)
 		}
 		return nil
+	case *ast.TypeSwitchStmt:
+		if x.Init != nil {
+			if ret := r.stmt(x.Init); ret != nil {
+				return ret
+			}
+		}
+		// switch v := e.(type) / switch e.(type)
+		var ta *ast.TypeAssertExpr
+		switch a := x.Assign.(type) {
+		case *ast.AssignStmt:
+			if len(a.Rhs) == 1 {
+				ta, _ = ast.Unparen(a.Rhs[0]).(*ast.TypeAssertExpr)
+			}
+		case *ast.ExprStmt:
+			ta, _ = ast.Unparen(a.X).(*ast.TypeAssertExpr)
+		}
+		if ta == nil {
+			rpfFail("%s: type switch outside the pure fragment", r.c.pos(x.Pos()))
+		}
+		v := r.expr(ta.X)
+		hasType := func(te ast.Expr) bool {
+			if id, ok := ast.Unparen(te).(*ast.Ident); ok && id.Name == "nil" {
+				return v.K == VNil
+			}
+			if r.assertHook != nil {
+				if holds, claimed := r.assertHook(r, &ast.TypeAssertExpr{X: ta.X, Type: te}, v); claimed {
+					return holds
+				}
+			}
+			if b, ok := r.p.TypesInfo.TypeOf(te).(*types.Basic); ok {
+				switch {
+				case b.Info()&types.IsInteger != 0:
+					return v.K == VInt && (v.T == nil || types.Identical(v.T, b) || (b.Kind() == types.Int && v.T == nil))
+				case b.Info()&types.IsString != 0:
+					return v.K == VStr
+				case b.Info()&types.IsBoolean != 0:
+					return v.K == VBool
+				case b.Info()&types.IsFloat != 0:
+					return v.K == VFloat
+				}
+			}
+			rpfFail("%s: case type not decidable", r.c.pos(te.Pos()))
+			return false
+		}
+		runT := func(cc *ast.CaseClause) (ret *rpfReturn) {
+			if o := r.p.TypesInfo.Implicits[cc]; o != nil {
+				r.env[o] = v
+			}
+			defer func() {
+				if y := recover(); y != nil {
+					if _, ok := y.(rpfBreak); ok {
+						ret = nil
+						return
+					}
+					panic(y)
+				}
+			}()
+			for _, st := range cc.Body {
+				if bs, ok := st.(*ast.BranchStmt); ok && bs.Tok == token.BREAK && bs.Label == nil {
+					return nil
+				}
+				if ret := r.stmt(st); ret != nil {
+					return ret
+				}
+			}
+			return nil
+		}
+		var defT *ast.CaseClause
+		for _, cl := range x.Body.List {
+			cc := cl.(*ast.CaseClause)
+			if cc.List == nil {
+				defT = cc
+				continue
+			}
+			for _, te := range cc.List {
+				if hasType(te) {
+					return runT(cc)
+				}
+			}
+		}
+		if defT != nil {
+			return runT(defT)
+		}
+		return nil
 	case *ast.RangeStmt:
 		// bounded iteration over a *literal table* only (the trip count is fixed by the source literal)
 		lst := r.expr(x.X)
@@ -650,7 +734,8 @@ func (r *rpf) assign(l ast.Expr, v *Val, define bool) {
 	if obj == nil {
 		rpfFail("%s: unresolved identifier %s", r.c.pos(l.Pos()), id.Name)
 	}
-	if obj.Parent() == obj.Pkg().Scope() {
+	if _, modelled := r.env[obj]; obj.Parent() == obj.Pkg().Scope() && !modelled {
+		// (a package-level variable the caller put into the environment is part of the folded state: initialisers)
 		rpfFail("%s: assignment to package-level variable", r.c.pos(l.Pos()))
 	}
 	r.env[obj] = v
@@ -1319,6 +1404,7 @@ func (c *Ctx) rpfCallWithGlobals(fd *ast.FuncDecl, p *packages.Package, args []*
 	h := &rpf{env: map[types.Object]*Val{}}
 	if hooks != nil {
 		h.callHook, h.selHook, h.idxHook, h.stHook = hooks.callHook, hooks.selHook, hooks.idxHook, hooks.stHook
+		h.multiHook, h.assertHook, h.unroll, h.maxSteps, h.effectCalls = hooks.multiHook, hooks.assertHook, hooks.unroll, hooks.maxSteps, hooks.effectCalls
 		for k, v := range hooks.env {
 			h.env[k] = v
 		}
